@@ -61,7 +61,7 @@ func (s ColorSpec) Color() color.Color {
 }
 
 type Option struct {
-	Kind    string       `json:"kind"` // "palette" or "at"
+	Kind    string       `json:"kind"` // "palette", "at", or "custom" (a caller-written option storing Color's RGBA at Index)
 	Index   int          `json:"index,omitempty"`
 	Color   *ColorSpec   `json:"color,omitempty"`
 	Palette *ops.Palette `json:"palette,omitempty"`
@@ -80,6 +80,11 @@ type Case struct {
 	Observe int `json:"observe,omitempty"`
 }
 
+// rawRGBA: the four values stored as they are (what a caller-written option may put in the palette).
+func rawRGBA(cs ColorSpec) color.RGBA {
+	return color.RGBA{uint8(cs.V[0]), uint8(cs.V[1]), uint8(cs.V[2]), uint8(cs.V[3])}
+}
+
 // modelAfter: the suggested (or default) palette with the first k options applied in order.
 func modelAfter(c Case, k int) [64]color.RGBA {
 	pm := [64]color.RGBA(ops.DefaultPalette())
@@ -87,9 +92,12 @@ func modelAfter(c Case, k int) [64]color.RGBA {
 		pm = [64]color.RGBA(*c.Suggested)
 	}
 	for _, o := range c.Options[:k] {
-		if o.Kind == "palette" {
+		switch o.Kind {
+		case "palette":
 			pm = [64]color.RGBA(*o.Palette)
-		} else {
+		case "custom":
+			pm[o.Index] = rawRGBA(*o.Color)
+		default:
 			pm[o.Index] = modelConvert(o.Color.Color())
 		}
 	}
@@ -187,21 +195,15 @@ func checkOptions(c Case) error {
 		case "at":
 			opts = append(opts, decode.WithColorAt(o.Index, o.Color.Color()))
 			model[o.Index] = modelConvert(o.Color.Color())
+		case "custom":
+			idx, v := o.Index, rawRGBA(*o.Color)
+			opts = append(opts, func(m *ivg.Metadata) { m.Palette[idx] = v })
+			model[o.Index] = v
 		}
 	}
 	if c.Prefix > 0 && c.Prefix < len(opts) {
 		// an earlier decode with a prefix of the very same option list must not disturb the list
-		pm := [64]color.RGBA(ops.DefaultPalette())
-		if c.Suggested != nil {
-			pm = [64]color.RGBA(*c.Suggested)
-		}
-		for _, o := range c.Options[:c.Prefix] {
-			if o.Kind == "palette" {
-				pm = [64]color.RGBA(*o.Palette)
-			} else {
-				pm[o.Index] = modelConvert(o.Color.Color())
-			}
-		}
+		pm := modelAfter(c, c.Prefix)
 		prec := &ops.Recorder{}
 		if err := decode.Decode(prec, src, opts[:c.Prefix]...); err != nil {
 			return harness.Violatef("c14/decode-error", "Decode with a prefix of the options: %v", err)
@@ -339,7 +341,7 @@ func describe(p *rast.Paint) string {
 	return p.Kind
 }
 
-var subOpt = harness.Define("options", "option lists (0-6 of WithPalette / WithColorAt in any order, any color.Color model, valid and nonsensical values incl. gradient-looking ones) x graphics with or without a suggested palette that paint from palette indices directly, in blends, through CREG references and as untouched initial registers: Reset's palette equals the ordered-application model, a caller-written option placed anywhere in the list sees the graphic's viewBox and the palette as the options before it left it (with and without a Destination), every path's paint equals the reference VM on the sanitised palette (nonsensical user entries act as opaque black), inputs untouched; non-trivial = at least one option and a painted index that an option touches", checkOptions)
+var subOpt = harness.Define("options", "option lists (0-6 of WithPalette / WithColorAt / caller-written options storing a raw value, in any order, runs of identical entries, any color.Color model, valid and nonsensical values incl. gradient-looking ones) x graphics with or without a suggested palette that paint from palette indices directly, in blends, through CREG references and as untouched initial registers: Reset's palette equals the ordered-application model, a caller-written option placed anywhere in the list sees the graphic's viewBox and the palette as the options before it left it (with and without a Destination), every path's paint equals the reference VM on the sanitised palette (nonsensical user entries act as opaque black), inputs untouched; non-trivial = at least one option and a painted index that an option touches", checkOptions)
 
 func genColorSpec(t *rapid.T, label string) ColorSpec {
 	model := rapid.SampledFrom([]string{"RGBA", "RGBA", "NRGBA", "RGBA64", "NRGBA64", "Gray", "Gray16", "Alpha", "Alpha16", "CMYK", "Custom"}).Draw(t, label+".model")
@@ -399,9 +401,43 @@ func TestOptions(t *testing.T) {
 						p[u] = gen.AnyRGBA(t, "used")
 					}
 				}
+				if rapid.IntRange(0, 2).Draw(t, "run") == 0 {
+					// a run of neighbouring entries holding one and the same colour (often nonsensical)
+					v := gen.AnyRGBA(t, "runcol")
+					a := rapid.IntRange(0, 62).Draw(t, "runfrom")
+					b := a + rapid.IntRange(1, 5).Draw(t, "runlen")
+					if rapid.Bool().Draw(t, "runatused") {
+						a = c.Uses[rapid.IntRange(0, len(c.Uses)-1).Draw(t, "runuse")] - rapid.IntRange(0, 2).Draw(t, "runback")
+						if a < 0 {
+							a = 0
+						}
+						b = a + rapid.IntRange(2, 5).Draw(t, "runlen2")
+					}
+					for i := a; i <= b && i < 64; i++ {
+						p[i] = v
+					}
+					labels = append(labels, "palette-with-a-run-of-identical-entries")
+					if !spec.Premultiplied(v) {
+						labels = append(labels, "run-of-identical-nonsensical-entries")
+					}
+				}
 				c.Options = append(c.Options, Option{Kind: "palette", Palette: &p})
 				touched = true
 				labels = append(labels, "with-palette")
+			} else if rapid.IntRange(0, 4).Draw(t, "custom") == 0 {
+				// a caller-written option that stores a raw RGBA value (any four bytes) in the palette
+				idx := c.Uses[rapid.IntRange(0, len(c.Uses)-1).Draw(t, "customwhich")]
+				if rapid.IntRange(0, 3).Draw(t, "customelse") == 0 {
+					idx = rapid.IntRange(0, 63).Draw(t, "customidx")
+				}
+				v := gen.AnyRGBA(t, "customcol")
+				cs := ColorSpec{Model: "RGBA", V: [4]uint16{uint16(v.R), uint16(v.G), uint16(v.B), uint16(v.A)}}
+				c.Options = append(c.Options, Option{Kind: "custom", Index: idx, Color: &cs})
+				touched = true
+				labels = append(labels, "caller-written-option-writes-the-palette")
+				if !spec.Premultiplied(v) {
+					labels = append(labels, "nonsensical-user-colour")
+				}
 			} else {
 				idx := rapid.IntRange(0, 63).Draw(t, "idx")
 				if rapid.IntRange(0, 2).Draw(t, "hit") != 0 {
@@ -409,6 +445,12 @@ func TestOptions(t *testing.T) {
 					touched = true
 				}
 				cs := genColorSpec(t, "col")
+				if n := len(c.Options); n > 0 && c.Options[n-1].Kind == "at" && rapid.IntRange(0, 3).Draw(t, "same") == 0 {
+					// the same colour again on a neighbouring index
+					cs = *c.Options[n-1].Color
+					idx = (c.Options[n-1].Index + rapid.SampledFrom([]int{1, 63}).Draw(t, "nb")) % 64
+					labels = append(labels, "same-colour-on-neighbouring-index")
+				}
 				c.Options = append(c.Options, Option{Kind: "at", Index: idx, Color: &cs})
 				labels = append(labels, "with-color-at:"+cs.Model)
 				conv := modelConvert(cs.Color())
